@@ -790,3 +790,81 @@ def run(ctx) -> None:  # noqa: F811
                          lambda: dplimits.check_angular_coordinates(ctx, "R-LIMITS", repo),
                          lambda: _angle_gpts(ctx, repo), lambda: _crop_guard(ctx, repo), lambda: _margin(ctx, repo)],
                    _inner_run_c14b)
+
+
+# ---- added after the seeded change C14-r7seed0: an optional argument is defaulted only where it was not given
+_inner_run_c14_r7 = run
+
+
+def _tristate_defaults(ctx) -> int:
+    """R-OPTIONALGIVEN"""
+    cls = ctx.repo.cls("abtem.measurements", "DiffractionPatterns")
+    n = 0
+    for defs in cls.methods.values():
+        for f in defs:
+            a = f.node.args
+            pos = a.posonlyargs + a.args
+            defaults = dict(zip([x.arg for x in pos[len(pos) - len(a.defaults):]], a.defaults))
+            defaults.update({x.arg: d for x, d in zip(a.kwonlyargs, a.kw_defaults) if d is not None})
+            optional = {p for p, d in defaults.items() if isinstance(d, ast.Constant) and d.value is None}
+            if not optional:
+                continue
+
+            def truthy_use(t: ast.AST, p: str) -> bool:
+                """does test `t` read parameter p as a truth value (instead of comparing it with None)?"""
+                if isinstance(t, ast.Name):
+                    return t.id == p
+                if isinstance(t, ast.UnaryOp) and isinstance(t.op, ast.Not):
+                    return truthy_use(t.operand, p)
+                if isinstance(t, ast.BoolOp):
+                    return any(truthy_use(v, p) for v in t.values)
+                if isinstance(t, ast.Compare) and len(t.ops) == 1 and isinstance(t.ops[0], (ast.Eq, ast.NotEq)):
+                    sides = (t.left, t.comparators[0])
+                    return any(isinstance(x, ast.Name) and x.id == p for x in sides) and any(
+                        isinstance(x, ast.Constant) and (x.value is False or x.value == 0) and x.value is not None
+                        for x in sides)
+                return False
+
+            def rec(stmts, guards):
+                nonlocal n
+                for st in stmts:
+                    if isinstance(st, ast.If):
+                        rec(st.body, guards + [st.test])
+                        rec(st.orelse, guards + [st.test])
+                        continue
+                    for blk in ("body", "orelse", "finalbody"):
+                        if isinstance(getattr(st, blk, None), list) and not isinstance(st, (ast.FunctionDef, ast.ClassDef)):
+                            rec(getattr(st, blk), guards)
+                    if isinstance(st, ast.Assign) and len(st.targets) == 1 and isinstance(st.targets[0], ast.Name) \
+                            and st.targets[0].id in optional:
+                        p = st.targets[0].id
+                        tests = list(guards)
+                        v = st.value
+                        if isinstance(v, ast.BoolOp) and isinstance(v.op, ast.Or) and truthy_use(v.values[0], p):
+                            tests.append(v.values[0])
+                        if isinstance(v, ast.IfExp):
+                            tests.append(v.test)
+                        bad = [t for t in tests if truthy_use(t, p)]
+                        n += 1
+                        ctx.check(not bad, "R-OPTIONALGIVEN", f"{f.qualname}:{p}", f.loc(st),
+                                  f"`{p}` (default None) is replaced only where it is None",
+                                  f"`{norm_text(st)[:50]}` replaces `{p}` under `{norm_text(bad[0])[:60]}`, which reads it as a "
+                                  f"truth value: an explicit False / 0 is treated like 'not given' and silently "
+                                  "overridden, so the caller's choice (e.g. blocking without the extra margin pixel) is "
+                                  "not honoured", key_detail="default") if bad else ctx.ok(
+                            "R-OPTIONALGIVEN", f"{f.qualname}:{p}", f.loc(st),
+                            f"`{p}` (default None) is replaced only under a comparison with None")
+
+            rec(f.node.body, [])
+    return n
+
+
+def run(ctx) -> None:  # noqa: F811
+    ctx.rule("R-OPTIONALGIVEN", "in every method of DiffractionPatterns, a parameter whose default is None and which the "
+             "method itself re-binds (fills in) is re-bound only on paths whose guards compare it with None: a guard "
+             "that reads it as a truth value (`not p`, `p or d`, `p == False`) also fires for an explicit False / 0, so "
+             "the caller's explicit choice is overridden (block_direct(margin=False) blocks one more pixel ring than "
+             "the stated radius).  Truth tests that only USE the parameter after it was filled in are not judged")
+    n = _tristate_defaults(ctx)
+    ctx.require(n >= 2, f"R-OPTIONALGIVEN examined only {n} fill-ins")
+    _inner_run_c14_r7(ctx)
